@@ -185,3 +185,13 @@ prop(
     level_text="For generated event sequences (connect, disconnect, refresh / fetch / idle / filter ticks, time advanced to just below and above the 60 s timeout, chain growth, single message deliveries in any order, replayed / stale / unsolicited proofs, muted peers) over 1-3 peers: every state change is an edge of the documented automaton for its cause, a proof changes the prove state only while a proof request is outstanding, a last-state update never discards a prove state, a request or last state older than the timeout leads to a disconnect at the next refresh tick and no disconnect happens without such a cause, and a removed peer leaves no entry behind.",
     level_note="timeouts of blocks-proof / blocks / transactions-proof requests are not predicted (their send times are private): a disconnect while such a request is outstanding is not judged",
 )
+
+prop(
+    "C18", "exploration",
+    rule="one evaluation = one send_transaction / estimate_cycles verdict compared with the reference verdict known by construction (valid base transaction, or exactly one invalidating mutation), one pending / unknown status check, one FIFO pool model comparison, or one relayed hash / transaction; "
+         "a cell = (operator, verdicts) / pool fill class / relay event",
+    sizes=tiers(16, 12, 60, 16, 800, 900, min_evals=1500, min_cells=12),
+    technique="runtime monitoring: reference verdict by construction, FIFO-with-limit pool model, exactly-once checker per (peer id, hash) over RecNet's relay log, cycles equality across estimate / pool / relay",
+    level_text="On a synced client whose chain deploys the always-success script: valid transactions (incl. chains spending outputs of pending ones, beyond the pool limit of 64) are accepted by send_transaction and estimate_cycles with the same cycles, every mutant (capacity overflow, duplicated / unknown input, unknown dep, immature since, output below occupied capacity, script code missing, duplicated dep, garbage dep group, no outputs) is rejected by both and stays unknown and unrelayed, the pool equals a FIFO-with-limit model with members reported pending, each pending hash is announced at most once per peer id, and GetRelayTransactions serves only pool members with the estimated cycles.",
+    level_note="the two relay branches that need tentacle's ServiceControl (open / close protocol) are not reachable with the recording network context; script verification itself (ckb-script) is trusted",
+)
